@@ -375,7 +375,23 @@ def gen_sched(g):
         if r < 0.55:
             ch = structural_edit(rng, docs[p])
             docs[p] = model.apply_change(docs[p], ch)
-            ops.append(gen.did_change(p, [ch]))
+            changes = [ch]
+            if rng.random() < 0.35:
+                # several changes in one notification; the last ones are in-line edits of a
+                # comment (or a plain in-line insertion) that need no re-parse on their own
+                for _k in range(rng.randint(1, 2)):
+                    cl = [j for j, ln in enumerate(docs[p]) if ln.lstrip().startswith("!")]
+                    if cl and rng.random() < 0.8:
+                        j = rng.choice(cl)
+                        c2 = {"range": {"start": {"line": j, "character": len(docs[p][j])},
+                                        "end": {"line": j, "character": len(docs[p][j])}}, "text": " x"}
+                    else:
+                        j = rng.randrange(len(docs[p]))
+                        c2 = {"range": {"start": {"line": j, "character": len(docs[p][j])},
+                                        "end": {"line": j, "character": len(docs[p][j])}}, "text": " "}
+                    docs[p] = model.apply_change(docs[p], c2)
+                    changes.append(c2)
+            ops.append(gen.did_change(p, changes))
         elif r < 0.7:
             text = "\n".join(docs[p])
             disk[p] = text
